@@ -22,12 +22,17 @@ def scenario(r, it, idx):
     cfg = pick_cfg(r)
     cfg["bwA"] = cfg["bwB"] = r.pick([50_000, 200_000, 2_000_000])
     cfg["allocA"] = cfg["allocB"] = r.pick([20_000, 100_000, 1_000_000])
+    only_unrel = r.chance(1, 3)        # the whole window Unreliable / TimeSensitive (nothing to resend) and lost, more packets queued behind it
+    if only_unrel:
+        if r.chance(1, 2): cfg["pw"] = r.pick([4, 16])
+        else: cfg["allocA"] = cfg["allocB"] = 20_000
     sim = Sim(r, cfg, inter=it)
     lat1 = r.pick([0, 2_000_000, 15_000_000, 100_000_000])
     dt1 = r.pick([1_000_000, 5_000_000, 16_000_000, 100_000_000])
     both = r.chance(1, 3)
     vol = [0]
-    def traffic(rate, modes=(0, 1, 2, 3), big=False, cap=150_000):
+    def traffic(rate, modes=None, big=False, cap=150_000):
+        modes = modes or ((1, 1, 0) if only_unrel else (0, 1, 2, 3))
         def tr(sim, ep):
             if (ep == "A" or both) and r.below(1000) < rate and vol[0] < cap:
                 for _ in range(r.range(1, 6 if big else 3)):
@@ -41,17 +46,19 @@ def scenario(r, it, idx):
     if warm:
         sim.run(warm, dt1, Net(latency=lat1, loss=r.pick([0, 0, 100])), Net(latency=lat1), traffic(400), probe_every=10)
     # 2. fill the windows
-    fill = r.pick([0, 3, 10])
+    fill = r.pick([0, 3, 10]) if not only_unrel else r.pick([3, 10])
+    if only_unrel:
+        cfg_note = "unreliable-only fill"
     if fill:
         sim.run(fill, dt1, Net(latency=lat1), Net(latency=lat1), traffic(1000, big=True), probe_every=5)
     # 3. blackout
-    direction = r.pick(["AB", "BA", "both", "both"])
+    direction = r.pick(["AB", "BA", "both", "both"]) if not only_unrel else r.pick(["AB", "both"])
     bl_dt = r.pick([dt1, dt1, 1_000_000_000, 5_000_000_000])
     bl_ticks = r.pick([5, 20, 60, 200])
     nAB = Net(loss=1000) if direction in ("AB", "both") else Net(latency=lat1)
     nBA = Net(loss=1000) if direction in ("BA", "both") else Net(latency=lat1)
     f0 = sum(1 for ep in "AB" for f in sim.frames[ep] if f.get("fate") == "drop")
-    sim.run(bl_ticks, bl_dt, nAB, nBA, traffic(r.pick([0, 100, 600]), big=r.chance(1, 2)), probe_every=20)
+    sim.run(bl_ticks, bl_dt, nAB, nBA, traffic(r.pick([0, 100, 600]) if not only_unrel else 700, big=r.chance(1, 2) or only_unrel), probe_every=20)
     meta["swallowed"] = sum(1 for ep in "AB" for f in sim.frames[ep] if f.get("fate") == "drop") - f0
     meta["blackout"] = (direction, bl_ticks, bl_dt)
     sim.inflight = []
